@@ -103,6 +103,10 @@ def gen_case(seed, tier='quick', max_geos=None, degenerate=False):
     if r3.random() < 0.7:
       par['volume_ratio_tolerance'] = r3.choice([0.1, 0.2, 0.5, 1.0])
     case['drift'] = gs
+  if 'drift' not in case and r3.random() < 0.15:
+    # a window bound between the number of dates and twice that number: the whole (shorter) history is the window
+    par['n_pretest_max'] = nd + r3.choice([nd // 2, nd // 2 + 1, nd - 1, 8])
+    case['window_bound_above_history'] = True
   if r3.random() < 0.12:
     # integer parameters given as integer-valued floats (accepted by the parameter class)
     which = r3.sample(['n_test', 'n_geos_max', 'n_pretest_max', 'n_designs', 'treatment_geos_range', 'control_geos_range'], r3.randint(1, 3))
@@ -123,7 +127,7 @@ def frame_of(case):
   n = len(case['rows'])
   t0 = pd.Timestamp('2020-01-01')
   for g in range(n):
-    gid = (g + 1) if case.get('int_ids') else str(g + 1)
+    gid = (g + case.get('id_base', 1)) if case.get('int_ids') else str(g + case.get('id_base', 1))
     for t, v in enumerate(case['rows'][g]):
       recs.append({'geo': gid, 'date': t0 + pd.Timedelta(days=t), 'response': v})
   df = pd.DataFrame(recs)
